@@ -400,7 +400,7 @@ func NewMemory(
 		queue:            &queue{},
 		queueWorker:      &errgroup.Group{},
 	}
-	mem.BaseMemory = amhist.NewBaseMemory(ctx, mach, cfg.BaseConfig, mem)
+	mem.BaseMemory = amhist.NewBaseMemory(ctx, mach, c.BaseConfig, mem)
 	mem.queueWorker.SetLimit(1)
 	tr := &tracer{
 		mem: mem,
